@@ -44,7 +44,7 @@ def scenarios(tier):
             for pat, n, rq in combos:
                 out.append(Scenario('start4', outs=list(outs), flags=list(flags), pat=pat, n=n, req=rq, nodet=True))
     for pair, reqs in ((('before_stop', 'after_stop'), ('stop', 'restart')),
-                       (('before_signal', 'after_signal'), ('signal', 'kill', 'stop', 'decr', 'restart'))):
+                       (('before_signal', 'after_signal'), ('signal', 'kill', 'stop', 'decr', 'restart', 'signal-9', 'signal-KILL', 'kill-9'))):
         for outs in itertools.product(OUTS, repeat=2):
             for flags in itertools.product((False, True), repeat=2):
                 for rq in reqs:
@@ -223,6 +223,13 @@ def run(scn, ch):
             req = world.request('kill', name='a')
         elif rq == 'signal':
             req = world.request('signal', name='a', signum=int(signal.SIGUSR1))
+        elif rq == 'signal-9':
+            # SIGKILL asked for by a request (a plain JSON number / a name), not by the daemon's own escalation
+            req = world.request('signal', name='a', signum=9)
+        elif rq == 'signal-KILL':
+            req = world.request('signal', name='a', signum='kill')
+        elif rq == 'kill-9':
+            req = world.request('kill', name='a', signum=9, graceful_timeout=5.0)
         res.check('C14.accepted', req.ok(), lambda: '%s refused: %r' % (rq, req.reply()), where='controller')
         why = world.run(until=lambda w: w.slot() is None and not w.stopping_processes(), horizon=4 * G + 2.0)
         res.check('C14.completes', why == 'until', lambda: '%s did not complete (slot=%r)' % (rq, world.slot()),
@@ -276,6 +283,12 @@ def run(scn, ch):
                 res.check('C14.signal_passes', len(nonkill) == len(calls),
                           lambda: 'before_signal allows the signal but %d of %d were delivered' % (len(nonkill), len(calls)),
                           where='watcher.send_signal', nontrivial=bool(calls))
+            if rq in ('signal-9', 'signal-KILL', 'kill-9'):
+                gone = all(world.kernel.procs[p].state != RUNNING for p in before)
+                res.check('C14.sigkill_always', gone and any(s == KILL for _, s in sent),
+                          lambda: 'SIGKILL requested with %s and before_signal=%r: workers %s %s, signals delivered %s'
+                          % (rq, dict(zip(names, scn.outs))['before_signal'], [p - PID_BASE for p in before],
+                             'gone' if gone else 'still running', sent), where='watcher.send_signal/requested-sigkill')
             if scn.pat == 'stubborn' and rq in ('stop', 'kill', 'decr', 'restart'):
                 killed = [pid for pid, s in sent if s == KILL]
                 targets = before if rq != 'decr' else sorted(set(pid for pid, s in sent))[:1] or before[:1]
